@@ -106,9 +106,11 @@ def _helper_registrations(repo: Repo, mod: Module, helper: FuncInfo, deco: ast.C
     env0 = {}
     for p, a in zip(params, deco.args):
         v = ev.ev(a)
-        if not isinstance(v, str):
+        if isinstance(v, (list, frozenset)):
+            v = tuple(sorted(v)) if isinstance(v, frozenset) else tuple(v)
+        if not (isinstance(v, str) or (isinstance(v, tuple) and all(isinstance(x, str) for x in v))):
             raise AnalysisError(f"{helper.qual}: non-literal argument in {norm(deco)}")
-        env0[p] = v
+        env0[p] = v       # a name, or a constant table of names the helper loops over
     out = []
     for c in inner:
         envs = [dict(env0)]
@@ -118,10 +120,10 @@ def _helper_registrations(repo: Repo, mod: Module, helper: FuncInfo, deco: ast.C
             if isinstance(a, (ast.For, ast.AsyncFor)):
                 if not isinstance(a.target, ast.Name):
                     raise AnalysisError(f"{helper.qual}: unsupported loop target in registration helper")
-                it = ev.ev(a.iter)
+                it = ev.ev(a.iter, env0)
                 if not isinstance(it, (tuple, list, frozenset)) or not all(isinstance(x, str) for x in it):
                     raise AnalysisError(f"{helper.qual}: registration loop over a non-literal collection {norm(a.iter)}")
-                envs = [dict(e, **{a.target.id: x}) for e in envs for x in sorted(it)]
+                envs = [dict(e, **{a.target.id: x}) for e in envs for x in (sorted(it) if isinstance(it, frozenset) else it)]
             elif isinstance(a, (ast.While, ast.If, ast.Try)):
                 raise AnalysisError(f"{helper.qual}: conditional registration cannot be modelled")
         for e in envs:
